@@ -140,6 +140,7 @@ def oraclesOf (t : Table) : Oracles :=
       | .arr #[y, m, d] => some ⟨y.getNat?.toOption.getD 0, m.getNat?.toOption.getD 0, d.getNat?.toOption.getD 0⟩
       | _ => none
     fltStr := fun b => (t.find "fltstr" [toString b.toNat]).map asStr
+    fmod := fun a b => (t.find "fmod" [toString a.toNat, toString b.toNat]).map fun r => UInt64.ofNat ((asStr r).toNat?.getD 0)
     round := fun b n => (t.find "round" (match n with
         | none => [toString b.toNat]
         | some k => [toString b.toNat, if k < 0 then "-" ++ toString (-k).toNat else toString k.toNat])).map valOfJson }
